@@ -209,19 +209,16 @@ Proof.
   exfalso. apply Hx. reflexivity.
 Qed.
 
-(* (2) the round trip is refuted: 62 x "a." then "a+5": tokens 1..125 are "a" "." .. "a", the 126th
-   token is the remainder "+5", parse_u32 accepts the '+', the token is written as DIGITS 5 and the
-   decoder renders "5" *)
+(* (2) the former defect input (known finding names-plus-sign-number-in-126th-token, repaired by
+   /repo fc00545): 62 x "a." then "a+5": tokens 1..125 are "a" "." .. "a", the 126th token is the
+   remainder "+5".  Before the repair parse_u32 accepted the '+', the token was written as DIGITS 5
+   and decoded as "5"; now it is a STRING token and the name round trips. *)
 Definition plus_name : list N := flat_map (fun _ => [97; 46]) (seq 0 62) ++ [97; 43; 53].
 Definition plus_src : list N := plus_name ++ [0].
 
-Example names_plus_sign_refuted :
-  exists bytes out,
-    names_encode plus_src = NmOk bytes /\ names_decode bytes = NmOk out /\ out <> plus_src.
-Proof.
-  eexists; eexists; split; [vm_compute; reflexivity|
-    split; [vm_compute; reflexivity|vm_compute; discriminate]].
-Qed.
+Example names_plus_sign_roundtrips :
+  exists bytes, names_encode plus_src = NmOk bytes /\ names_decode bytes = NmOk plus_src.
+Proof. eexists; split; [vm_compute; reflexivity|]. vm_compute. reflexivity. Qed.
 
 Print Assumptions names_decode_never_panics.
-Print Assumptions names_plus_sign_refuted.
+Print Assumptions names_plus_sign_roundtrips.
